@@ -79,6 +79,10 @@ var schedAssumptions = append([]string{
 }, commonAssumptions...)
 
 var specs = []spec{
+	{ID: "C07", Pkg: ".", Level: "model_checking", Instrument: true, RacePass: false, Procs: 1,
+		StmtPoints: []string{"Muxer.Close", "muxerStream.close"},
+		Rule:        "all interleavings with at most b deviations (b=2 quick, 3 thorough, unbounded for scenarios with <=1 requester) of a writer that feeds k frames and then calls Close with 0..2(3) requests blocked inside the muxer (multivariant / media playlist before data, blocking reload, preload hint), from several points of the muxer's life (before data, mid-segment, mid-part, window slid), RAM and Directory storage, all three variants; followed by a sequential epilogue of one request of every kind; distinct = distinct (scenario, response statuses and completion points)",
+		Assumptions: schedAssumptions},
 	{ID: "C20", Pkg: ".", Level: "model_checking", Instrument: true, RacePass: true, Procs: 1,
 		Rule:        "all interleavings with at most b deviations (preemptions / non-default select preferences; b=3 quick, 5 thorough, unbounded for the smallest scenarios; points at every mutex acquire/release, channel close, select) of a producer (k pushes, waitUntilSizeIsBelow(n) after each), a consumer (m pulls) and an optional canceller on the real clientSegmentQueue; distinct = distinct (scenario, final observation) pairs",
 		Assumptions: schedAssumptions},
